@@ -62,8 +62,25 @@ def cfg_text(consts, invariants, spec="Spec"):
     return "\n".join(lines) + "\n"
 
 
+def known_switches():
+    """deviation switches of C12 that are currently `known` findings (known_findings.json is maintained by the lead;
+    while it has no C12 entry the three deviations reproduced on the pinned tree are assumed)"""
+    if "C12_KNOWN_SWITCHES" in os.environ:          # for experiments: "" = none
+        return sorted(x for x in os.environ["C12_KNOWN_SWITCHES"].split(",") if x in KNOWN)
+    try:
+        fs = json.load(open(os.path.join(VERIF, "known_findings.json")))["findings"]
+    except Exception:
+        fs = []
+    mine = [f for f in fs if PROP in f.get("properties", []) and any(d in KNOWN for d in str(f.get("deviation", "")).replace(",", " ").split())]
+    if not mine:
+        return sorted(KNOWN)
+    return sorted({d for f in mine if f.get("kind") == "known" for d in str(f["deviation"]).replace(",", " ").split() if d in KNOWN})
+
+
 def mc_consts(switch=None, **kw):
     c = {s: (s == switch) for s in SWITCHES}
+    ks = known_switches()
+    c.update({"AsIsCache": "ModuleCacheKeepsCtx" in ks, "AsIsPatch": "BytecodePatch312" in ks, "AsIsNoFile": "NoFilenameCompile" in ks})
     c.update({"MaxBuilds": 1, "Vers": 1, "FilePerBuild": True, "TwoHistories": True, "WithAsIs": True, "EmitJson": True})
     c.update(kw)
     return c
@@ -386,7 +403,7 @@ def direction_b(pool, seed, n, wd_root, stats, found, known_hits, samples):
         for b, i in zip(t["builds"], impl):
             b["obs"] = observation(i)
     traces = [t for t in traces if t["builds"]]
-    res, verdicts = validate_traces(traces, wd_root, ["ModuleCacheKeepsCtx", "BytecodePatch312", "NoFilenameCompile"])
+    res, verdicts = validate_traces(traces, wd_root, known_switches())
     missing = [t["tid"] for t in traces if t["tid"] not in verdicts]
     if missing:
         raise tlc.TLCError("no verdict for %d recorded traces (e.g. tid %s)" % (len(missing), missing[:3]))
@@ -447,7 +464,7 @@ def direction_b(pool, seed, n, wd_root, stats, found, known_hits, samples):
 
 
 # ------------------------------------------------------------------------------------------------
-def replay_one(pool, rec):
+def replay_one(pool, rec, say=print):
     """re-runs a stored violation; -> still failing?"""
     if rec["direction"] == "A":
         tmpl = E.TEMPLATE[rec["tmpl"]]
@@ -457,7 +474,7 @@ def replay_one(pool, rec):
         stats = {"builds": 0, "conform": 0, "better_than_asis": 0, "drift_state": 0}
         res = judge_history(desc, rec["builds"], cbs, ans, stats)
         for kind, k, det in res:
-            print("replay: build %d %s %s" % (k, kind, json.dumps(det)[:600]))
+            say("replay: build %d %s %s" % (k, kind, json.dumps(det)[:600]))
         return any(kind == "violation" for kind, _, _ in res)
     # direction B: run the recorded history again, compare the failing build with the stored expectation
     builds = rec["builds"]
@@ -467,7 +484,7 @@ def replay_one(pool, rec):
     nb = [{"text": b["text"], "globals": {}} for b in builds]
     nb[k]["globals"] = globals_from(builds[k]["prog"], rec["want"]["res"])
     n = pool.run([{"id": "n", "impl": False, "builds": nb, "natives": ["globals"]}])["n"]["globals"][k]
-    print("replay: build %d impl=%s native=%s" % (k, json.dumps(i)[:300], json.dumps(n)[:300]))
+    say("replay: build %d impl=%s native=%s" % (k, json.dumps(i)[:300], json.dumps(n)[:300]))
     return not same(i, n)
 
 
@@ -532,7 +549,7 @@ def _run(pool, tier, seed, keep, t0):
         th = threading.Thread(target=tlc_thread, daemon=True)
         th.start()
         rng = random.Random(seed)
-        sample_cap = {} if thorough else {"histories": 4000, "pair_histories": 1200}
+        sample_cap = {"histories": 80000, "pair_histories": 40000} if thorough else {"histories": 4000, "pair_histories": 1200}
         jobs_meta, answers = {}, {}
         replay_wall = 0.0
         while True:
@@ -595,8 +612,11 @@ def _run(pool, tier, seed, keep, t0):
         cov["witnesses"] = wit
         cov["scopes"] = sorted(scopes)
         cov["features"] = sorted({f for t in E.TEMPLATES for f in t["feats"]})
-        if not all(wit.values()):
+        ks = known_switches()
+        need = [k for k in wit if not (k == "cache_hit" and "ModuleCacheKeepsCtx" not in ks) and not (k == "unspecified_asis" and "BytecodePatch312" not in ks)]
+        if not all(wit[k] for k in need):
             raise tlc.TLCError("vacuity: some witness class was never enumerated: %s" % wit)
+        cov["known_switches"] = ks
         cov["replay_wall_s"] = round(replay_wall, 1)
         meta = jobs_meta
         nontriv = set()
@@ -629,7 +649,16 @@ def _run(pool, tier, seed, keep, t0):
     finally:
         if not keep:
             tlc.cleanup(wd)
-    # verdicts
+    # verdicts: a difference is reported only if it reproduces (DESIGN 3.5): every candidate is run once more
+    unconfirmed = 0
+    confirmed = []
+    for f in found[:400]:
+        if replay_one(pool, f, say=lambda *_: None):
+            confirmed.append(f)
+        else:
+            unconfirmed += 1
+    found = confirmed + found[400:]
+    cov["unconfirmed_candidates"] = unconfirmed
     violations = []
     seen_sig = set()
     for f in found:
